@@ -108,8 +108,117 @@ theorem startsLabel_items (cs : Bool) (st : Stmt) : ∀ (brk cont : String) (c :
   | default_ => intro brk cont c _; exact ⟨_, [], rfl⟩
   | _ => intro brk cont c h; simp [Stmt.startsLabel] at h
 
+/-- `Pos` without the requirement that no jump is pending (a statement that begins with a label may
+    start in a block already closed by a jump). -/
+structure PosS (T : Stat) (c : SCtx) (nd : Nat) (pre : List Item) : Prop where
+  cur : curOf T.S.o0 pre = c.cur
+  curOK : CurOK c.ctx
+  nslots : c.slots.length = nd
+  le : ∀ i, i < nd → c.slots.getD i 0 ≤ c.lastid
+
+theorem Pos.toS {T : Stat} {c : SCtx} {nd : Nat} {pre : List Item} (h : Pos T c nd pre) : PosS T c nd pre :=
+  ⟨h.cur, h.curOK, h.nslots, h.le⟩
+
+theorem PosS.toPos {T : Stat} {c : SCtx} {nd : Nat} {pre : List Item} (h : PosS T c nd pre)
+    (hj : c.jump = none) : Pos T c nd pre := ⟨hj, h.cur, h.curOK, h.nslots, h.le⟩
+
+/-- the position after a statement -/
+theorem PosS.after {T : Stat} {c : SCtx} {nd nd' : Nat} {pre : List Item} (hp : PosS T c nd pre)
+    {st : Stmt} {o : SOut} (g : SGood st c o)
+    (hnd : nd' = nd + (declTys st).length) : PosS T o.ctx nd' (pre ++ o.items) := by
+  obtain ⟨new, h1, h2, h3, _⟩ := g.slots
+  refine ⟨g.cur _ _ hp.cur, g.curOK hp.curOK, by rw [h1, List.length_append, hp.nslots, h2, hnd], ?_⟩
+  intro i hi
+  rw [h1]
+  by_cases hin : i < nd
+  · rw [getD_append_left _ _ (by rw [hp.nslots]; exact hin)]
+    have := hp.le i hin; have := g.lastid; omega
+  · rw [getD_append_right _ _ (by rw [hp.nslots]; omega)]
+    have hm : new.getD (i - c.slots.length) 0 ∈ new := getD_mem (by rw [hp.nslots, h2]; omega)
+    exact (h3 _ hm).2
+
+/-- how `exec` continues a sequence after the outcome of its first statement -/
+def seqRes (cs : Bool) (n : Nat) (b : Stmt) : CSem2.Outcome → Option CSem2.Outcome
+  | .normal s' => exec cs n s' b
+  | o => some o
+
 section
 variable (T : Stat)
+
+/-- The second statement of a sequence, given what the first one achieved (`pa`). -/
+theorem seq_cont (n : Nat) (ih : SimStmt T n) (a b : Stmt) {out oa : CSem2.Outcome}
+    {lp : Bool × Bool} {brk cont : String} {c : SCtx} {nd nd' : Nat} {pre post : List Item} {st0 : State}
+    (hfrb : frag b = true)
+    (hwt : Stmt.wt T.vtys T.ret lp.1 lp.2 nd (.seq a b) = some nd') (hp : PosS T c nd pre)
+    (hjs : c.jump = none ∨ a.startsLabel = true)
+    (hext : Ext T (funcstmt T.S.cs brk cont (.seq a b) c).ctx)
+    (hits : T.S.its = pre ++ (funcstmt T.S.cs brk cont (.seq a b) c).items ++ post)
+    (hlp : (lp.1 = true → CanJump T.S brk) ∧ (lp.2 = true → CanJump T.S cont))
+    (pa : Post T lp brk cont st0 (pre ++ (funcstmt T.S.cs brk cont a c).items)
+      (funcstmt T.S.cs brk cont a c).ctx oa)
+    (habn : a.endsJump = true → ∀ s', oa ≠ .normal s')
+    (hres : seqRes T.S.cs n b oa = some out) :
+    Post T lp brk cont st0 (pre ++ (funcstmt T.S.cs brk cont (.seq a b) c).items)
+      (funcstmt T.S.cs brk cont (.seq a b) c).ctx out := by
+  simp only [Stmt.wt] at hwt
+  split at hwt
+  · cases hwt
+  · rename_i hej
+    simp only [Option.bind_eq_some_iff] at hwt
+    obtain ⟨n1, hwa, hwb⟩ := hwt
+    obtain ⟨hna, hca⟩ := wt_noDead _ _ a _ _ _ _ hwa
+    obtain ⟨hnb, hcb⟩ := wt_noDead _ _ b _ _ _ _ hwb
+    have ga := funcstmt_good' T.S.cs a brk cont c hjs hna
+    have hdis : a.endsJump = false ∨ b.startsLabel = true := by
+      cases ha : a.endsJump <;> cases hb : b.startsLabel <;> simp [ha, hb] at hej ⊢
+    simp only [funcstmt] at hext hits ⊢
+    have hitsa : T.S.its = pre ++ (funcstmt T.S.cs brk cont a c).items ++
+        ((funcstmt T.S.cs brk cont b (funcstmt T.S.cs brk cont a c).ctx).items ++ post) := by
+      rw [hits]; simp only [List.append_assoc]
+    by_cases hej' : a.endsJump = true
+    · -- `a` ends in a jump statement: `b` begins with the label that closes the block
+      have hsl : b.startsLabel = true := by
+        rcases hdis with h | h
+        · rw [hej'] at h; cases h
+        · exact h
+      have hab := habn hej'
+      have hout : out = oa := by
+        cases oa with
+        | normal s' => exact absurd rfl (hab s')
+        | brk _ => simpa [seqRes] using hres.symm
+        | cont _ => simpa [seqRes] using hres.symm
+        | ret _ => simpa [seqRes] using hres.symm
+      subst hout
+      obtain ⟨l, rest, hl⟩ := startsLabel_items T.S.cs b brk cont (funcstmt T.S.cs brk cont a c).ctx hsl
+      have hitsl : T.S.its = (pre ++ (funcstmt T.S.cs brk cont a c).items) ++
+          .lbl (funcstmt T.S.cs brk cont a c).ctx.jump l [] :: (rest ++ post) := by
+        rw [hitsa, hl]; simp only [labelItem, List.append_assoc, List.cons_append]
+      exact (pa.close hitsl hlp).post_abnormal hab
+    · have hja := ga.jump (by simpa using hej')
+      cases oa with
+      | normal s' =>
+        simp only [seqRes] at hres
+        obtain ⟨_, k, env', M', hreach, inv'⟩ := pa
+        have hpb : Pos T (funcstmt T.S.cs brk cont a c).ctx n1 (pre ++ (funcstmt T.S.cs brk cont a c).items) :=
+          (hp.after ga hca).toPos hja
+        have hitsb : T.S.its = (pre ++ (funcstmt T.S.cs brk cont a c).items) ++
+            (funcstmt T.S.cs brk cont b (funcstmt T.S.cs brk cont a c).ctx).items ++ post := by
+          rw [hits]; simp only [List.append_assoc]
+        have pb := ih b s' out lp brk cont _ n1 nd' _ post env' M' hres hfrb hwb hpb hext hitsb hlp inv'
+        rw [← List.append_assoc]
+        exact pb.prepend hreach
+      | brk s' =>
+        simp only [seqRes, Option.some.injEq] at hres
+        subst hres
+        exact pa.abnormal hja (by intro s'' h; cases h)
+      | cont s' =>
+        simp only [seqRes, Option.some.injEq] at hres
+        subst hres
+        exact pa.abnormal hja (by intro s'' h; cases h)
+      | ret v =>
+        simp only [seqRes, Option.some.injEq] at hres
+        subst hres
+        exact pa.abnormal hja (by intro s'' h; cases h)
 
 theorem sim_seq (n : Nat) (ih : SimStmt T n) (a b : Stmt) {s : Store} {out : CSem2.Outcome}
     {lp : Bool × Bool} {brk cont : String} {c : SCtx} {nd nd' : Nat} {pre post : List Item} {env : Env}
@@ -123,12 +232,13 @@ theorem sim_seq (n : Nat) (ih : SimStmt T n) (a b : Stmt) {s : Store} {out : CSe
     Post T lp brk cont (T.at env M pre) (pre ++ (funcstmt T.S.cs brk cont (.seq a b) c).items)
       (funcstmt T.S.cs brk cont (.seq a b) c).ctx out := by
   simp only [frag, Bool.and_eq_true] at hfr
-  simp only [Stmt.wt] at hwt
-  split at hwt
-  · cases hwt
+  have hwt' := hwt
+  simp only [Stmt.wt] at hwt'
+  split at hwt'
+  · cases hwt'
   · rename_i hej
-    simp only [Option.bind_eq_some_iff] at hwt
-    obtain ⟨n1, hwa, hwb⟩ := hwt
+    simp only [Option.bind_eq_some_iff] at hwt'
+    obtain ⟨n1, hwa, hwb⟩ := hwt'
     obtain ⟨hna, hca⟩ := wt_noDead _ _ a _ _ _ _ hwa
     obtain ⟨hnb, hcb⟩ := wt_noDead _ _ b _ _ _ _ hwb
     have ga := funcstmt_good T.S.cs a brk cont c hp.jump hna
@@ -138,61 +248,22 @@ theorem sim_seq (n : Nat) (ih : SimStmt T n) (a b : Stmt) {s : Store} {out : CSe
       rcases hdis with h | h
       · exact Or.inl (ga.jump h)
       · exact Or.inr h) hnb
-    simp only [funcstmt] at hext hits ⊢
-    have hexta : Ext T (funcstmt T.S.cs brk cont a c).ctx := hext.first gb
+    have hexta : Ext T (funcstmt T.S.cs brk cont a c).ctx := by
+      have : Ext T (funcstmt T.S.cs brk cont b (funcstmt T.S.cs brk cont a c).ctx).ctx := hext
+      exact this.first gb
     have hitsa : T.S.its = pre ++ (funcstmt T.S.cs brk cont a c).items ++
         ((funcstmt T.S.cs brk cont b (funcstmt T.S.cs brk cont a c).ctx).items ++ post) := by
-      rw [hits]; simp only [List.append_assoc]
+      rw [hits]; simp only [funcstmt, List.append_assoc]
     simp only [exec] at hex
     cases hea : exec T.S.cs n s a with
     | none => rw [hea] at hex; cases hex
     | some oa =>
       rw [hea] at hex
       have pa := ih a s oa lp brk cont c nd n1 pre _ env M hea hfr.1 hwa hp hexta hitsa hlp inv
-      by_cases hej' : a.endsJump = true
-      · -- `a` ends in a jump statement: `b` begins with the label that closes the block
-        have hsl : b.startsLabel = true := by
-          rcases hdis with h | h
-          · rw [hej'] at h; cases h
-          · exact h
-        have hab := endsJump_abnormal T.S.cs n a s oa hej' hea
-        have hout : out = oa := by
-          cases oa with
-          | normal s' => exact absurd rfl (hab s')
-          | brk _ => simpa using hex.symm
-          | cont _ => simpa using hex.symm
-          | ret _ => simpa using hex.symm
-        subst hout
-        obtain ⟨l, rest, hl⟩ := startsLabel_items T.S.cs b brk cont (funcstmt T.S.cs brk cont a c).ctx hsl
-        have hitsl : T.S.its = (pre ++ (funcstmt T.S.cs brk cont a c).items) ++
-            .lbl (funcstmt T.S.cs brk cont a c).ctx.jump l [] :: (rest ++ post) := by
-          rw [hitsa, hl]; simp only [labelItem, List.append_assoc, List.cons_append]
-        exact (pa.close hitsl hlp).post_abnormal hab
-      · have hja := ga.jump (by simpa using hej')
-        cases oa with
-        | normal s' =>
-          simp only at hex
-          obtain ⟨_, k, env', M', hreach, inv'⟩ := pa
-          have hpb : Pos T (funcstmt T.S.cs brk cont a c).ctx n1 (pre ++ (funcstmt T.S.cs brk cont a c).items) :=
-            hp.after ga hja hca
-          have hitsb : T.S.its = (pre ++ (funcstmt T.S.cs brk cont a c).items) ++
-              (funcstmt T.S.cs brk cont b (funcstmt T.S.cs brk cont a c).ctx).items ++ post := by
-            rw [hits]; simp only [List.append_assoc]
-          have pb := ih b s' out lp brk cont _ n1 nd' _ post env' M' hex hfr.2 hwb hpb hext hitsb hlp inv'
-          rw [← List.append_assoc]
-          exact pb.prepend hreach
-        | brk s' =>
-          simp only [Option.some.injEq] at hex
-          subst hex
-          exact pa.abnormal hja (by intro s'' h; cases h)
-        | cont s' =>
-          simp only [Option.some.injEq] at hex
-          subst hex
-          exact pa.abnormal hja (by intro s'' h; cases h)
-        | ret v =>
-          simp only [Option.some.injEq] at hex
-          subst hex
-          exact pa.abnormal hja (by intro s'' h; cases h)
+      have hres : seqRes T.S.cs n b oa = some out := by
+        cases oa <;> simpa [seqRes] using hex
+      exact seq_cont T n ih a b hfr.2 hwt hp.toS (Or.inl hp.jump) hext hits hlp pa
+        (fun he => endsJump_abnormal T.S.cs n a s oa he hea) hres
 
 end
 
